@@ -138,13 +138,20 @@ class _LocalTimePatternParser(_IPatternParser[LocalTime]):
         if len(pattern) == 0:
             raise InvalidPatternError(_TextErrorMessages.FORMAT_STRING_EMPTY)
 
+        def invariant_standard(cached: LocalTimePattern) -> IPattern[LocalTime]:
+            # The cached implementations are built around the default template value: for any other
+            # template value, build their custom pattern text around ours instead.
+            if self.__template_value == cached.template_value:
+                return cached
+            return parse_no_standard_expansion(cached.pattern_text)
+
         if len(pattern) == 1:
             match pattern:
                 # Invariant standard patterns return cached implementations.
                 case "o":
-                    return LocalTimePattern._Patterns._extended_iso_pattern_impl
+                    return invariant_standard(LocalTimePattern._Patterns._extended_iso_pattern_impl)
                 case "O":
-                    return LocalTimePattern._Patterns._long_extended_iso_pattern_impl
+                    return invariant_standard(LocalTimePattern._Patterns._long_extended_iso_pattern_impl)
                 # Other standard patterns expand the pattern text to the appropriate custom pattern.
                 # Note: we don't just recurse, as otherwise a ShortTimePattern of 't' (for example)
                 # would cause a stack overflow.
